@@ -32,6 +32,7 @@ var _syncEvictionLatencyBuckets = tally.MustMakeExponentialDurationBuckets(100*t
 var errNoSpace = errors.New("cannot free enough space for new entry, the unevictable/incomplete blobs are using up all the space")
 
 var errInvalidKey = errors.New("invalid blob key")
+var errInvalidMetadataSuffix = errors.New("invalid metadata suffix")
 
 // store implements the APIs of [Store]. [store]'s APIs expose the [storelib.BlobScope] arg,
 // while [Store]'s APIs omit that arg (cleaner interface) and instead expose other APIs to scope the whole store.
@@ -217,6 +218,18 @@ func (s *store) validKey(key string) bool {
 		}
 	}
 	return true
+}
+
+// validSuffix tells whether mdSuffix names a sidecar file of its own in a blob's directory: the suffix is
+// joined to the directory unchanged, so an empty one, ".", "..", one containing a separator, or the name of
+// the data file or of one of the store's own sidecars would address something else (DeleteMetadata(key,
+// "data") removed the blob's bytes).
+func validSuffix(mdSuffix string) bool {
+	switch mdSuffix {
+	case "", ".", "..", _blobFileName, _evictionBannedFileName, _blobSizeFileName:
+		return false
+	}
+	return !strings.ContainsRune(mdSuffix, '/') && !strings.ContainsRune(mdSuffix, os.PathSeparator)
 }
 
 func (s *store) persistBlobSize(key string, sizeBytes uint64) error {
@@ -473,6 +486,10 @@ func (s *store) SetMetadata(key string, md metadata.Metadata, scope storelib.Blo
 		return err
 	}
 
+	if !validSuffix(md.GetSuffix()) {
+		return errInvalidMetadataSuffix
+	}
+
 	mdData, err := md.Serialize()
 	if err != nil {
 		return fmt.Errorf("serialize metadata: %w", err)
@@ -507,6 +524,9 @@ func (s *store) GetMetadata(key string, md metadata.Metadata, scope storelib.Blo
 	if err := isOutOfScope(b, scope); err != nil {
 		return false, err
 	}
+	if !validSuffix(md.GetSuffix()) {
+		return false, errInvalidMetadataSuffix
+	}
 
 	mdFilePath := s.sidecarFilePath(key, b.complete, md.GetSuffix())
 	mdFile, err := os.OpenFile(mdFilePath, os.O_RDONLY, _defaultFilePerm)
@@ -538,6 +558,9 @@ func (s *store) DeleteMetadata(key, mdSuffix string, scope storelib.BlobScope) e
 	}
 	if err := isOutOfScope(b, scope); err != nil {
 		return err
+	}
+	if !validSuffix(mdSuffix) {
+		return errInvalidMetadataSuffix
 	}
 	mdFilePath := s.sidecarFilePath(key, b.complete, mdSuffix)
 	err := os.Remove(mdFilePath)
@@ -598,6 +621,9 @@ func (s *store) WriteAtMetadata(key string, md metadata.Metadata, p []byte, off 
 	}
 	if err := isOutOfScope(b, scope); err != nil {
 		return err
+	}
+	if !validSuffix(md.GetSuffix()) {
+		return errInvalidMetadataSuffix
 	}
 
 	mdFilePath := s.sidecarFilePath(key, b.complete, md.GetSuffix())
